@@ -19,8 +19,9 @@ TRACE_CONSTS = {"T": 4096, "MinRoom": 25, "WatchSet": "<- AllIds"}
 GEN_CFG = "INIT GenInit\nNEXT GenNext\nINVARIANT Emit\nCHECK_DEADLOCK FALSE\n"
 SOFT = ("RefillSameStream", "NoStarvationByRefill")
 
-MC_BASE = {"T": 2, "MinRoom": 2, "Ids": "{0, 1, 2}", "MaxPend": 2, "MaxRoom": 2, "MaxCredit": 2, "Caps": "{1, 4}", "Ovh": 1}
-
+MC_BASE = {"T": 2, "MinRoom": 2, "Ids": "{0, 1, 2}", "Windowed": "{1}", "MaxPend": 2, "MaxRoom": 2, "MaxCredit": 2,
+           "Caps": "{4}", "Ovh": 1, "Interleave": "FALSE"}
+MC_SAFE = "INIT MCInit\nNEXT MCNext\nVIEW View\nINVARIANT MCInv\nCHECK_DEADLOCK FALSE\n"
 
 def signature(pid, rej):
     run, at = rej["run"], rej["at"]
@@ -106,29 +107,29 @@ def expect_counterexample(pid, module, cfg_body, constants, what):
 def model_check(pid, rep, quick):
     base = dict(MC_BASE)
     if not quick:
-        base.update({"MaxPend": 3, "MaxCredit": 3})
+        base.update({"Interleave": "TRUE", "Caps": "{1, 4}"})
     need = ["DoOpen", "DoWrite", "DoShutdown", "DoCancel", "DoAckAll", "DoResetAcked", "DoWindowUpdate", "DoMaxData", "StartPack", "DoOnce"]
-    # 1. documented design: bounded wait / one visit per round / tokens / cursor, for each observed stream
-    for obs in (0, 1, 2):
-        st = vlib.tlc_mc(pid, "MC_StreamSched", "INIT MCInit\nNEXT MCNext\nINVARIANT MCInv\nCHECK_DEADLOCK FALSE\n",
-                         dict(base, RefillSame="FALSE", WatchSet="{%d}" % obs), need_actions=need)
+    # 1. documented design: bounded wait / one visit per round / tokens / cursor, for the observed stream(s)
+    for obs in ((1,) if quick else (0, 1, 2)):
+        st = vlib.tlc_mc(pid, "MC_StreamSched", MC_SAFE, dict(base, RefillSame="FALSE", WatchSet="{%d}" % obs), need_actions=need)
         rep.add_mc("sched/MC_StreamSched/design/wait-of-%d" % obs, st)
+    live = dict(MC_BASE)   # liveness on the smaller environment in both tiers
     # 2. documented design: NoStarvation (liveness) under fair packet assembly; history accounting off
     st = vlib.tlc_mc(pid, "MC_StreamSched", "SPECIFICATION MCSpec\nPROPERTY NoStarvation\nCHECK_DEADLOCK FALSE\n",
-                     dict(base, RefillSame="FALSE", WatchSet="{}"), need_actions=need)
+                     dict(live, RefillSame="FALSE", WatchSet="{}"), need_actions=need)
     rep.add_mc("sched/MC_StreamSched/design/NoStarvation", st)
     # 3. the code's refill rule: one visit per round still holds, service is guaranteed only if the others run dry
     st = vlib.tlc_mc(pid, "MC_StreamSched", "SPECIFICATION MCSpec\nINVARIANT MCInv\nPROPERTY CodeGuarantee\nCHECK_DEADLOCK FALSE\n",
-                     dict(base, RefillSame="TRUE", WatchSet="{}"), need_actions=need)
+                     dict(live, RefillSame="TRUE", WatchSet="{1}"), need_actions=need)
     rep.add_mc("sched/MC_StreamSched/code/CodeGuarantee", st)
     # 4. ... and NoStarvation itself is refuted for it (explains the recorded deviation at design level)
     cex = expect_counterexample(pid, "MC_StreamSched", "SPECIFICATION MCSpec\nPROPERTY NoStarvation\nCHECK_DEADLOCK FALSE\n",
-                                dict(base, RefillSame="TRUE", WatchSet="{}"), "NoStarvation under the code's refill rule")
+                                dict(live, RefillSame="TRUE", WatchSet="{}"), "NoStarvation under the code's refill rule")
     rep.cov["parts"]["sched/MC_StreamSched/code/NoStarvation"] = cex
 
 
-GEN_BASE = {"SWin": 1 << 24, "CWin": 1 << 24, "Sizes": "{1, 5000}", "Caps": "{30, 1200, 9000}", "Incs": "{3000}",
-            "MaxStreams": 4, "Drain": 60, "Refill": "TRUE"}
+GEN_BASE = {"T": 4096, "MinRoom": 25, "WatchSet": "{}", "Caps": "{30, 1200, 9000}", "Incs": "{3000}", "Drain": 60, "Refill": "TRUE"}
+SCENARIOS = '{"round3", "exhausted3", "sparse4", "windows", "midfin", "midreset", "pair2", "blank"}'
 
 
 def run_part(pid, tier, rep):
@@ -136,25 +137,17 @@ def run_part(pid, tier, rep):
     quick = tier == "quick"
     model_check(pid, rep, quick)
     # spec -> impl -> spec: schedules enumerated by TLC after scripted prefixes, executed on the real DataStreams
-    d = 2 if quick else 3
-    scen = [("round3", dict(GEN_BASE, Script="<- Round3", Depth=d)),
-            ("exhausted3", dict(GEN_BASE, Script="<- Exhausted3", Depth=d)),
-            ("sparse4", dict(GEN_BASE, Script="<- Sparse4", Depth=d)),
-            ("windows", dict(GEN_BASE, Script="<- Round3", Depth=d, SWin=10000, CWin=14000)),
-            ("pair2", dict(GEN_BASE, Script="<- Pair2", Depth=d + 1, SWin=6000, Sizes="{1, 3000}")),
-            ("blank", dict(GEN_BASE, Script="<- Blank", Depth=d + 2, Sizes="{5000}", Caps="{1200, 9000}", MaxStreams=3))]
-    for name, consts in scen:
-        beh = os.path.join(wd, "sched_beh_%s.ndjson" % name)
-        trace = os.path.join(wd, "sched_trace_%s.ndjson" % name)
-        g = vlib.tlc_gen(pid, "Gen_StreamSched", GEN_CFG, consts, beh)
-        rep.add_mc("sched/Gen_StreamSched/" + name, g)
-        vlib.vhx("vh-sched", ["replay", beh, trace])
-        validate(rep, pid, "sched/tlc-schedules/" + name, trace)
+    beh = os.path.join(wd, "sched_beh_gen.ndjson")
+    trace = os.path.join(wd, "sched_trace_gen.ndjson")
+    g = vlib.tlc_gen(pid, "Gen_StreamSched", GEN_CFG, dict(GEN_BASE, Use=SCENARIOS, Depth=2 if quick else 3), beh)
+    rep.add_mc("sched/Gen_StreamSched/scenarios", g)
+    vlib.vhx("vh-sched", ["replay", beh, trace])
+    validate(rep, pid, "sched/tlc-schedules", trace)
     # deep walks of the same environment (TLC simulation mode)
     beh = os.path.join(wd, "sched_beh_walks.ndjson")
     trace = os.path.join(wd, "sched_trace_walks.ndjson")
     depth = 60
-    g = vlib.tlc_gen(pid, "Gen_StreamSched", GEN_CFG, dict(GEN_BASE, Script="<- Round3", Depth=depth, SWin=20000, CWin=60000, Drain=200),
+    g = vlib.tlc_gen(pid, "Gen_StreamSched", GEN_CFG, dict(GEN_BASE, Use='{"walk"}', Depth=depth, Drain=200),
                      beh, simulate={"num": 150 if quick else 1500, "depth": depth + 12})
     rep.add_mc("sched/Gen_StreamSched/walks", g)
     vlib.vhx("vh-sched", ["replay", beh, trace])
